@@ -85,7 +85,7 @@ def map_updates(facts, o):
             used_by_chain = any(x[0] == 'call' and (x[1].endswith('::and_modify') or x[1].endswith('::or_insert')) and x[2] and x[2][0] == me for x in evs)
             which = dict((a, v) for a, v in o.conds).get(('discr', me))
             if not used_by_chain and which is not None:
-                gm = [x for x in evs if x[0] == 'call' and x[1].endswith('OccupiedEntry::<\'a, K, V, A>::get_mut')]
+                gm = [x for x in evs if x[0] == 'call' and (x[1].endswith('OccupiedEntry::<\'a, K, V, A>::get_mut') or x[1].endswith('OccupiedEntry::<\'a, K, V, A>::into_mut'))]
                 delta = None
                 for g in gm:
                     slot = ('call', g[1], g[2], g[3])
@@ -96,9 +96,10 @@ def map_updates(facts, o):
                                 delta = 1 if v[1] == 'Add' else -1
                 ins = [x for x in evs if x[0] == 'call' and x[1].endswith('VacantEntry::<\'a, K, V, A>::insert')]
                 if which == 0:
-                    ups.append({'map': _deref(e[2][0]), 'key': _deref(e[2][1]), 'present': delta, 'absent': None, 'closure': None})
+                    ups.append({'map': _deref(e[2][0]), 'key': _deref(e[2][1]), 'present': delta, 'absent': None, 'closure': None, 'arm': 'occupied'})
                 else:
-                    ups.append({'map': _deref(e[2][0]), 'key': _deref(e[2][1]), 'present': 'not-taken', 'absent': ins[0][2][1] if ins else None, 'closure': None})
+                    ups.append({'map': _deref(e[2][0]), 'key': _deref(e[2][1]), 'present': 'not-taken', 'absent': ins[0][2][1] if ins else None, 'closure': None,
+                                'arm': 'vacant'})
         if e[1].endswith('::or_insert') and e[2][0][0] == 'call' and e[2][0][1].endswith('::entry'):
             me = ('call', e[1], e[2], e[3])
             ent = e[2][0]
@@ -143,7 +144,15 @@ def r1_inverse(ctx):
         return [{'updates': [{k: (show(v) if isinstance(v, tuple) else v) for k, v in u_.items() if k != 'closure'} for u_ in p_['updates']],
                  'pushes': p_['pushes'], 'pops': p_['pops']} for p_ in paths]
     c, u = info['count_current_position'], info['uncount_current_position']
-    okc = bool(c) and all(len(p_['updates']) == 1 and p_['updates'][0]['key'] == hkey and p_['updates'][0]['present'] == 1 and p_['updates'][0]['absent'] == C(1)
+    def count_ok(u_):
+        # `match map.entry(k)`: the occupied arm adds one, the vacant arm inserts one (the two arms are the two paths); any other form
+        # does both in one chain
+        if u_.get('arm') == 'occupied':
+            return u_['present'] == 1 and u_['absent'] is None
+        if u_.get('arm') == 'vacant':
+            return u_['absent'] == C(1)
+        return u_['present'] == 1 and u_['absent'] == C(1)
+    okc = bool(c) and all(len(p_['updates']) == 1 and p_['updates'][0]['key'] == hkey and count_ok(p_['updates'][0])
                           and p_['pushes'] == 1 and p_['pops'] == 0 for p_ in c)
     ctx.ob(rule, PI + '::count_current_position', 'entry(key).and_modify(+1).or_insert(1); push(count)', okc,
            found=summary(c), expected='on every path: key = current_position_hash, present: +1, absent: insert 1, one push')
